@@ -245,21 +245,16 @@ __CPROVER_assigns(t->flags, t->areas, t->entries;
     g_rb.na > 0: __CPROVER_object_upto(t->area, g_rb.na * sizeof(RegisterArea));
     g_rb.ne > 0: __CPROVER_object_upto(t->entry, g_rb.ne * sizeof(RegisterEntry));
     RB_ASSIGN_MEM(t, 0); RB_ASSIGN_MEM(t, 1); RB_ASSIGN_MEM(t, 2); RB_ASSIGN_MEM(t, 3); RB_ASSIGN_MEM(t, 4); RB_ASSIGN_MEM(t, 5))
-/* verdict: the first violated rule and its offender, or success */
-__CPROVER_ensures(rb_init_verdict_ok(__CPROVER_return_value, g_rb.init))
-/* failure: the table stays uninitialised */
+/* The postconditions of the statement are asserted by the harness right
+ * after the call (RB_INIT_POST in harness/registers-block.c): spec functions
+ * with loops over the table, evaluated inside a contract clause, cost the
+ * symbolic execution minutes under dfcc.  Here: what needs no table walk. */
+__CPROVER_ensures(__CPROVER_return_value.code == g_rb.init.code)
 __CPROVER_ensures(IMPLIES(g_rb.init.code != REG_INIT_SUCCESS, !RB_INITIALISED(t)))
-/* success: initialised, dimensions recorded, init phase over */
 __CPROVER_ensures(IMPLIES(g_rb.init.code == REG_INIT_SUCCESS,
     RB_INITIALISED(t) && (t->flags & REG_TF_DURING_INIT) == 0 && t->areas == g_rb.na && t->entries == g_rb.ne))
-/* byte order kept, lists not re-seated, description unchanged */
 __CPROVER_ensures(RB_BE(t) == ((__CPROVER_old(t->flags) & REG_TF_BIG_ENDIAN) != 0))
 __CPROVER_ensures(t->area == __CPROVER_old(t->area) && t->entry == __CPROVER_old(t->entry))
-__CPROVER_ensures(rb_description_same(t, g_rb.area0, g_rb.na, g_rb.entry0, g_rb.ne))
-/* success: well-formed, each area records its run */
-__CPROVER_ensures(IMPLIES(g_rb.init.code == REG_INIT_SUCCESS, rb_table_wf(t)))
-/* success: defaults loaded, everything else zero */
-__CPROVER_ensures(IMPLIES(g_rb.init.code == REG_INIT_SUCCESS, rb_init_words_ok(t, g_rb.na, g_rb.ne, RB_BE(t))))
 ;
 
 #endif
